@@ -160,12 +160,14 @@ func ReactScenarios() []History {
 		Ev{Name: "TxEnd"},
 		Ev{Name: "Call", Signer: "c1", Svc: "s2", Provs: []string{"p3", "pz"}, Cap: 10, Timeout: 2}, // p3 at its old price 2, pz unknown
 		Ev{Name: "Call", Signer: "c1", Svc: "s1", Provs: both, Cap: 10, Timeout: 2},                  // p1 at its old price 5
-		Ev{Name: "Bind", Signer: "o1", Svc: "s2", Prov: "pz", Deposit: 40, DShape: "ok", Pr: pr(2), Qos: 1}, // pz is still nobody's
+		Ev{Name: "Bind", Signer: "o2", Svc: "s2", Prov: "pz", Deposit: 40, DShape: "ok", Pr: pr(2), Qos: 1}, // pz is still nobody's: o2 binds it, this time for good
 		eb(1),
 		Ev{Name: "Respond", Signer: "p3", Rid: rid(3, 1, 5, 0), Kind: "valid"},
 		Ev{Name: "Respond", Signer: "p1", Rid: rid(4, 1, 5, 0), Kind: "bad"},
 		Ev{Name: "Respond", Signer: "p2", Rid: rid(4, 1, 5, 1), Kind: "bad"},
+		Ev{Name: "Respond", Signer: "pz", Rid: rid(3, 1, 5, 1), Kind: "valid"},
 		Ev{Name: "Withdraw", Signer: "o1"},
+		Ev{Name: "Withdraw", Signer: "o2"},
 		eb(1), eb(1),
 		Ev{Name: "Obs"},
 	)
